@@ -47,7 +47,7 @@ def cases(tier, seed):
     rng = random.Random(seed * 7919 + 10)
     out = []
     cfgs = [dict(p=2), dict(p=1, q=1), dict(p=3), dict(p=2, q=1)]
-    n = 2 if tier == 'quick' else 6
+    n = 2 if tier == 'quick' else 25
     for cfg in cfgs:
         d = sum(cfg.values())
         P = [p for p in pat.GRD(d, max_grades=2) if p and len(p) <= 4] + pat.RND(d, 12, rng, max_len=3, min_len=1)
